@@ -128,14 +128,14 @@ Definition transfer (l : listeners (list N)) : rres (listeners (list N * nat)) :
 Record owners := mko { old_w : bool; in_flight : bool; new_w : bool }.
 
 Inductive hstep :=
-| HReturn        (* old worker: return_listen_sockets + send_listeners (takes, does not close) *)
+| HReturn        (* old worker: return_listen_sockets: deregister, send over SCM_RIGHTS, drop its copies *)
 | HReceive       (* new worker: receive_listeners *)
 | HOldExit       (* old worker exits after its soft stop *)
 | HOldCrash.     (* old worker dies at this message boundary *)
 
 Definition hand (o : owners) (s : hstep) : owners :=
   match s with
-  | HReturn => if old_w o then mko true true (new_w o) else o      (* SCM_RIGHTS duplicates: the sender keeps its copy until it closes it *)
+  | HReturn => if old_w o then mko false true (new_w o) else o     (* SCM_RIGHTS duplicates into the message; return_listen_sockets then drops the worker's own copies *)
   | HReceive => if in_flight o then mko (old_w o) false true else o
   | HOldExit | HOldCrash => mko false (in_flight o) (new_w o)
   end.
